@@ -768,6 +768,24 @@ def _pen_leaves(font, names, relative, out, hmul=1, location=None, key="pen"):
                         ok = False
                     leaves.append(((key, n, oi, "off", ci), "D", int(c), 1))
                 continue
+            if op == "addVarComponent":
+                # VARC: (glyph name, DecomposedTransform, location); translate / centre are design units,
+                # rotation / scale / skew and the axis location are not
+                gname, tr, loc = args
+                leaves.append(((key, n, oi, "glyph"), "I", gname, 0))
+                leaves.append(((key, n, oi, "location"), "I", freeze(loc), 0))
+                for a in ("rotation", "scaleX", "scaleY", "skewX", "skewY"):
+                    leaves.append(((key, n, oi, a), "I", getattr(tr, a), 0))
+                for a in ("translateX", "translateY", "tCenterX", "tCenterY"):
+                    c = getattr(tr, a)
+                    if c != int(c):
+                        ok = False
+                    leaves.append(((key, n, oi, a), "D", int(c), 1))
+                continue
+            if any(pt is not None and not isinstance(pt, (tuple, list)) for pt in args):
+                # an operation this projection does not know: recorded whole, compared for identity
+                leaves.append(((key, n, oi, "args"), "I", freeze(args), 0))
+                continue
             for pi, pt in enumerate(args):
                 if pt is None:
                     leaves.append(((key, n, oi, pi), "I", None, 0))
